@@ -142,3 +142,21 @@ Proof.
   - intros k r' Hr'. rewrite (R k) in Hr'. apply in_map_iff in Hr' as [r [<- Hr]]. apply (proj1 (perm_In order Hp _ r)) in Hr.
     exists r. split; [exact Hr|apply (Rv' k r Hr)].
 Qed.
+
+(* ---------------- the comparison always returns on well-formed ontologies ---------------- *)
+
+Theorem compare_returns ol orr : wf_cmp ol -> wf_cmp orr -> exists c, compare ol orr = Ok c.
+Proof.
+  intros Wl Wr. unfold compare, changed_terms.
+  destruct (mapM_all_Ok (fun t => match o_get (t_id t) orr with Some r => term_delta ol orr t r | None => Ok None end) (terms_sorted ol)) as [ds ->].
+  - intros t Ht. apply sort_by_In in Ht. destruct (o_get (t_id t) orr) as [r|] eqn:Er; [|eexists; reflexivity].
+    unfold term_delta.
+    assert (exists ys, resolve_all ol (t_parents t) = Ok ys) as [ys ->].
+    { apply mapM_all_Ok. intros p Hp. destruct (wf_parents_resolve ol Wl t Ht p Hp) as [tp Htp]. exists tp. unfold resolve. rewrite Htp. reflexivity. }
+    assert (In r (ar_terms (o_arena orr))) as Hr.
+    { unfold o_get, ar_get in Er. destruct (MAX_HPO_ID <=? t_id t); [discriminate|]. unfold ar_find in Er. apply find_by_Some in Er. apply Er. }
+    assert (exists ys, resolve_all orr (t_parents r) = Ok ys) as [ys' ->].
+    { apply mapM_all_Ok. intros p Hp. destruct (wf_parents_resolve orr Wr r Hr p Hp) as [tp Htp]. exists tp. unfold resolve. rewrite Htp. reflexivity. }
+    cbn [bind]. match goal with |- context [if ?c then _ else _] => destruct c end; eexists; reflexivity.
+  - cbn [bind]. eexists. reflexivity.
+Qed.
